@@ -166,6 +166,7 @@ func parseCaseLine(line string) (string, bool) {
 type histEntry struct {
 	St LoopState `json:"st"`
 	N  int       `json:"n"`
+	B  string    `json:"b"` // the specification's branch name for this step
 }
 
 type loopCase struct {
@@ -286,6 +287,9 @@ func replayLoopCase(fam *Family, c *loopCase, res *RunResult, rng *rand.Rand, va
 	pred := make([]Tok, len(c.Out))
 	for i, t := range c.Out {
 		pred[i] = DecTok(t)
+	}
+	if n := len(c.Hist); n > 0 && c.Hist[n-1].B != "" {
+		res.Branches[c.Hist[n-1].B]++ // the last step of each emitted history (every history is some case's last step)
 	}
 	for v := 0; v < variants; v++ {
 		var r *rand.Rand
